@@ -96,7 +96,7 @@ def run_hist_one(exe, run, d, ops, verbose=False):
 
 def check_hist(run, exe):
     quick = run.tier == "quick"
-    ncases = 800 if quick else 12000
+    ncases = 600 if quick else 12000
     nops = 28 if quick else 45
     work = os.path.join(run.work, "dumps")
     os.makedirs(work, exist_ok=True)
@@ -199,7 +199,10 @@ def check_whitebox(run, engine, genmod, exe, ncases, what):
     else:
         cases += [genmod.gen_case(run.rng) for _ in range(ncases)]
     run.cov["engines"][engine] = {"corpus_cases": ncorpus, "generated": ncases}
-    same = getattr(genmod, "same", lambda m, i: m == i)
+    cmp3 = getattr(genmod, "compare", None)          # compare(case, model, impl) -> None | reason
+
+    def same(c, m, i):
+        return (cmp3(c, m, i) is None) if cmp3 else (m == i)
     cf = run.casefile(engine + "-cases.txt", cases)
     model = core.run_model(engine, cf)
     impl, crashes = core.run_impl_lines(exe, run.work, cases, env=ENV)
@@ -209,7 +212,7 @@ def check_whitebox(run, engine, genmod, exe, ncases, what):
         print("model:          " + model[0])
         print("implementation: " + impl[0])
         print("spec verdict:   " + verd[0])
-    bad = [i for i in range(len(cases)) if not same(model[i], impl[i]) or verd[i] != "ok" or i in crashes]
+    bad = [i for i in range(len(cases)) if not same(cases[i], model[i], impl[i]) or verd[i] != "ok" or i in crashes]
     for i, c in enumerate(cases):
         run.note_case(engine + " " + c, getattr(genmod, "nontrivial", lambda c, o: True)(c, impl[i]))
         if i < 2:
@@ -223,8 +226,19 @@ def check_whitebox(run, engine, genmod, exe, ncases, what):
             v = core.run_model(engine + "-spec", run.casefile(engine + "-spec1.txt", [genmod.spec_line(case, o[0])]))
             return m[0], o[0], v[0], cr
         case = cases[i]
+        if not hasattr(genmod, "shrink"):
+            hdr, sep, body = case.partition(" | ") if " | " in case else ("", "", case)
+
+            def mk(ops):
+                return hdr + sep + " ".join(ops)
+
+            def failing(ops):
+                r = one(mk(ops))
+                return not same(mk(ops), r[0], r[1]) or r[2] != "ok" or bool(r[3])
+            if failing(body.split()):
+                case = mk(core.shrink_list(body.split(), failing, max_tests=120))
         if hasattr(genmod, "shrink"):
-            case = genmod.shrink(case, lambda c: (lambda r: not same(r[0], r[1]) or r[2] != "ok" or r[3])(one(c)))
+            case = genmod.shrink(case, lambda c: (lambda r: not same(c, r[0], r[1]) or r[2] != "ok" or r[3])(one(c)))
         m, o, v, cr = one(case)
         replay = {"engine": engine, "case": case, "model": m, "implementation": o, "spec_verdict": v,
                   "impl_stderr_tail": (list(cr.values())[0][1][-1500:] if cr else ""),
@@ -279,7 +293,7 @@ def check(run):
 
 WHITEBOX = [
     ("fcache", "fcachegen", "fcache_drv.c", lambda: core.lib_sources(exclude=("fcache.c",)),
-     "fcache.c (fcache_get/pread/get_chunk)", 1500),
+     "fcache.c (fcache_get/pread/get_chunk)", 800),
     ("rcache", "rcachegen", "rcache_drv.c", lambda: core.lib_sources(which=("addrxlat",), exclude=("ctx.c",)),
-     "addrxlat ctx.c (get_cache_buf/bury_cache_buffer)", 1500),
+     "addrxlat ctx.c (get_cache_buf/bury_cache_buffer)", 1000),
 ]
